@@ -55,6 +55,8 @@ impl Prop for C10 {
             "array_formatter",
             "mandated_query_in_message",
             "finish_called_after_every_datum",
+            "unit_with_more_than_255_data",
+            "list_with_empty_leading_item",
         ];
         v.into_iter().map(String::from).collect()
     }
@@ -69,6 +71,7 @@ impl Prop for C10 {
             controllers: 1,
             tree,
             plain488: false,
+            no_mav: false,
         };
         let mut t = base_trace("C10", seed, run, "framing", cfg.clone());
         let tc = TreeCtx::new(&cfg.tree);
@@ -104,6 +107,11 @@ impl Prop for C10 {
                     }
                     // some handlers check for a full buffer after every datum
                     u.plan.finish_each = rng.chance(1, 5);
+                    if u.query && rng.chance(1, 1500) {
+                        // a very long response unit (length counters)
+                        let n = rng.urange(255, 300);
+                        u.plan.data = (0..n).map(|k| Datum::U8((k % 10) as u8)).collect();
+                    }
                     u
                 };
                 let mut u = u;
@@ -185,6 +193,14 @@ impl Prop for C10 {
                 }
                 if !pattern.contains(&1) {
                     stats.probe("no_query_message");
+                }
+                for u in &s.msg.units {
+                    if u.query && u.plan.data.len() > 255 {
+                        stats.probe("unit_with_more_than_255_data");
+                    }
+                    if u.query && u.plan.data.iter().any(|d| matches!(d, Datum::ChrList(l) if l.len() > 1 && l[0].is_empty())) {
+                        stats.probe("list_with_empty_leading_item");
+                    }
                 }
                 if s.msg.units.iter().any(|u| u.query && u.plan.finish_each && u.plan.data.len() >= 2) {
                     stats.probe("finish_called_after_every_datum");
